@@ -585,7 +585,7 @@ func (c *FnCtx) indexAddr(fr *Frame, st *State, x *ssa.IndexAddr) SV {
 			break
 		}
 		c.safety("idx", st, And(App(SBool, "<=", IntLit(0), idx), App(SBool, "<", idx, sl.Len)))
-		loc := c.elemLoc(u.Elem(), sl.Arr, c.vc.Name("ix", App(SInt, "+", sl.Off, idx)))
+		loc := c.elemLoc(u.Elem(), sl.Arr, c.ix(sl.Off, idx))
 		if structOf(u.Elem()) != nil {
 			return Sc{c.subRef(loc)}
 		}
